@@ -293,7 +293,7 @@ fn qsem(args: &[String]) {
                                 }
                             };
                             if !vio.is_empty() {
-                                std::mem::forget(b);
+                                qsem::discard(b);
                             }
                             (r, vio)
                         });
@@ -539,6 +539,10 @@ fn c16(args: &[String]) {
                         vio.push(v);
                     }
                 }
+            }
+            "xor" => {
+                let v: Value = serde_json::from_str(&line).expect("json");
+                vio.extend(lvh::c16::xor_case(&v, &mut evals, &mut st.layout_differs));
             }
             "floats" => {
                 let v: Value = serde_json::from_str(&line).expect("json");
